@@ -70,7 +70,10 @@ def run(pid, tier):
                                   failing_input={'harness': h, 'bytes': flat, 'failed_on_real_code': names},
                                   replay_transcript=rp['stdout'] + rp['stderr'])
                 confirmed = True
-        if not confirmed:
+        if not confirmed and not kf.get('playback_attempted', True):
+            # same defect seen through another instantiation; counterexample extraction was capped
+            out.violation('kani::%s::%s' % (h, '+'.join(kf['failed_checks'])[:120]), 'kani', kf['raw'])
+        elif not confirmed:
             out.inconclusive.append('kani harness %s failed (%s) but no counterexample replays on the real code: treated as a tool artefact'
                                     % (h, kf['failed_checks']))
     # ---- native exhaustive
